@@ -343,6 +343,10 @@ func sampleCall(rng *rand.Rand, mode Mode) Call {
 		case 13:
 			c.Fault = &Fault{Kind: []string{"dup", "replay"}[rng.Intn(2)]}
 		}
+		if (c.Op == "echoJSON" || c.Op == "echoJSONStream" || c.Op == "variants") && rng.Intn(8) == 0 {
+			// a re-framing intermediary appends to the body: trailing data after a complete JSON document
+			c.Fault = &Fault{Kind: "append", Arg: []string{"}", "]", ",", "\x00", "\ngarbage", "{}", " null", "1", "\"x\"", " \n\t ", "\n", "}}", ":", "x"}[rng.Intn(14)]}
+		}
 	}
 	return c
 }
@@ -593,6 +597,14 @@ func oracleC15(r *CallRecord) []problem {
 			// multipart closing delimiter), the complete request; never partial data
 			if !(s.HandlerCalls == 0 && s.Status == 400) && !(s.HandlerCalls == 1 && s.ServerSaw == r.ExpectServerSaw && r.Call.Invalid == "") {
 				add("a body cut or broken in flight is answered 400 and never reaches the handler with partial data", fmt.Sprintf("delivery %d: status %d, handler calls %d, handler saw %s", i, s.Status, s.HandlerCalls, clip(s.ServerSaw, 160)))
+			}
+		case k == "append" && jsonish && r.Call.Invalid == "":
+			if strings.TrimSpace(r.Call.Fault.Arg) == "" {
+				if s.HandlerCalls != 1 || s.ServerSaw != r.ExpectServerSaw {
+					add("trailing whitespace after a JSON body is harmless", fmt.Sprintf("delivery %d: status %d, handler calls %d", i, s.Status, s.HandlerCalls))
+				}
+			} else if s.HandlerCalls != 0 || s.Status != 400 {
+				add("trailing data after a complete JSON body is answered 400 and never reaches the handler", fmt.Sprintf("delivery %d: trailing %q: status %d, handler calls %d", i, r.Call.Fault.Arg, s.Status, s.HandlerCalls))
 			}
 		case r.Call.Invalid != "" && benign(k) && (r.Call.Fault == nil || benign(r.Call.Fault.Kind)):
 			if s.HandlerCalls != 0 || s.Status != 400 {
